@@ -9,3 +9,4 @@ def run(prog, rep):
                        'source back references use SourceFilter(id()) on the parent block; inherited properties shadow by name. '
                        'Equality with a brute-force traversal on all trees is not decided.')
     r_bfs.run(prog, rep)
+    r_bfs.run_filters(prog, rep)
